@@ -165,6 +165,18 @@ func (r *BinaryCopyReader) Read(ctx context.Context) (_ []any, err error) {
 		return nil, err
 	}
 
+	// NOTE: the file trailer consists of a 16-bit integer word containing -1.
+	// This is easily distinguished from a tuple's field-count word. Nothing
+	// but the end of the copy-in stream is expected after the trailer.
+	if fields == math.MaxUint16 {
+		err = r.reader.Read()
+		if err != nil {
+			return nil, err
+		}
+
+		return nil, errors.New("unexpected copy data after the file trailer")
+	}
+
 	if int(fields) != len(r.scanners) {
 		return nil, fmt.Errorf("unexpected number of fields: %d, expected %d", fields, len(r.scanners))
 	}
